@@ -44,7 +44,7 @@ STM = [('tal', 'content', 'x'), ('tal', 'replace', 'x'), ('tal', 'condition', 'c
        ('i18n', 'translate', ''), ('i18n', 'domain', 'd'), ('meta', 'interpolation', 'true'),
        ('tal', 'on-error', 'string:e'), ('tal', 'switch', 'x'), ('i18n', 'attributes', 'title'),
        ('tal', 'comment', 'blah'), ('metal', 'define-macro', 'M'), ('metal', 'define-slot', 'S'),
-       ('tal', 'content', 'structure x'), ('i18n', 'context', 'cx')]
+       ('tal', 'content', 'structure sx'), ('i18n', 'context', 'cx')]
 FOREIGN = [('class', 'k'), ('data-foo', '2'), ('data-x-y', '7'), ('f:a', '3'), ('title', 'T'), ('xml:lang', 'en'),
            ('aria-label', 'l'), ('DATA-UP', '1')]
 
@@ -202,7 +202,7 @@ def leak_scan(out, src_prefixes):
 def render(src, **cfg):
     from chameleon import PageTemplate
     try:
-        return PageTemplate(src, **cfg)(x='X<', c=1)
+        return PageTemplate(src, **cfg)(x='X<', c=1, sx='<i>S</i>')
     except Exception as e:
         return 'RAISED %s: %s' % (type(e).__name__, str(e).split('\n')[0][:120])
 
